@@ -59,8 +59,10 @@ def gen_edits(rng, n):
             ops.append(["set", rng.choice(["TITLE", "ARTIST", "SUBTITLE", "XCUSTOM", "CREDIT"]), rng.choice(EDIT_VALUES)])
         elif r < 0.55:
             ops.append(["del", rng.choice(["TITLE", "ARTIST", "XCUSTOM"]), ""])
-        elif r < 0.7:
+        elif r < 0.66:
             ops.append(["chartset", rng.choice(["meter", "description"]), rng.choice(["7", "edited", "é"])])
+        elif r < 0.78:
+            ops.append(["chartextra", str(rng.randint(0, 3)), rng.choice(["keysounds.ogg", "extra:data", "x", ""])])
         elif r < 0.8:
             ops.append(["chartdel", "", ""])
         elif r < 0.9:
@@ -80,6 +82,9 @@ def apply_edit(sf, op):
         setattr(sf, k, v)
     elif kind == "chartset" and sf.charts:
         setattr(sf.charts[0], k, v)
+    elif kind == "chartextra" and sf.charts and hasattr(sf.charts[0], "extradata"):
+        c = sf.charts[int(k or 0) % len(sf.charts)]
+        c.extradata = [v, "more"] if v else None          # SM charts: components after the note data
     elif kind == "chartdel" and len(sf.charts) > 1:
         del sf.charts[-1]
     elif kind == "chartadd":
@@ -122,8 +127,15 @@ class BodyError(Exception):
     pass
 
 
+class BodyBaseError(BaseException):
+    pass
+
+
 RAISERS = {"raise:BodyError": BodyError, "raise:KeyboardInterrupt": KeyboardInterrupt, "raise:SystemExit": SystemExit,
-           "raise:ValueError": ValueError}
+           "raise:ValueError": ValueError, "raise:KeyError": KeyError, "raise:AttributeError": AttributeError, "raise:TypeError": TypeError,
+           "raise:OSError": OSError, "raise:UnicodeError": UnicodeError, "raise:LookupError": LookupError, "raise:RuntimeError": RuntimeError,
+           "raise:StopIteration": StopIteration, "raise:GeneratorExit": GeneratorExit, "raise:BodyBaseError": BodyBaseError,
+           "raise:AssertionError": AssertionError, "raise:NotImplementedError": NotImplementedError}
 
 
 def run_scenario(sc, rid):
@@ -195,12 +207,19 @@ def run_scenario(sc, rid):
             with simfile.mutate(path(names["in"]), **kw) as sf:
                 result["entry"] = projs(json.dumps(nproj(sf), sort_keys=True))
                 try:
+                    def boom():
+                        if outcome == "cancel":
+                            return CancelMutation()
+                        if outcome == "cancel-subclass":
+                            return type("MyCancel", (CancelMutation,), {})()
+                        result["raised_obj"] = RAISERS[outcome]("from the body")
+                        return result["raised_obj"]
                     for j, op in enumerate(edits):
                         if outcome != "normal" and raise_at == j:
-                            raise (CancelMutation() if outcome == "cancel" else RAISERS[outcome]("from the body"))
+                            raise boom()
                         apply_edit(sf, op)
                     if outcome != "normal" and raise_at >= len(edits):
-                        raise (CancelMutation() if outcome == "cancel" else RAISERS[outcome]("from the body"))
+                        raise boom()
                 finally:
                     try:
                         result["exit"] = projs(json.dumps(nproj(sf), sort_keys=True, default=str))
@@ -221,6 +240,8 @@ def run_scenario(sc, rid):
             do_mutate(sc["edits"], sc["outcome"], sc.get("raise_at", 0), fsx)
         except BaseException as e:  # noqa
             result["exc"] = type(e).__name__
+            if result.get("raised_obj") is not None and e is not result["raised_obj"]:
+                result["exc"] = "not-the-same-object:" + type(e).__name__
         for f in rec.leaked:
             try:
                 f.close()
@@ -266,7 +287,7 @@ def run_scenario(sc, rid):
         fault_ev = next((ev for ev in rec.events if not ev["ok"] and sc.get("fault") and ev["n"] == sc["fault"]), None)
         rec_out = {"id": rid, "names": spec_names, "tried": list(tried), "decin": decin, "snaps": snaps,
                    "exit": result["exit_at"] if result["entry"] is not None else 0,
-                   "outcome": sc["outcome"], "exc": result["exc"],
+                   "outcome": "cancel" if sc["outcome"] == "cancel-subclass" else sc["outcome"], "exc": result["exc"],
                    "savefail": (result.get("auto", "") if sc["outcome"] == "normal" else "") or ("fault" if fault_ev else ""),
                    "faultop": fault_ev["op"] if fault_ev else "", "faultmode": fault_ev["mode"] if fault_ev else "",
                    "faultname": fault_ev["name"] if fault_ev else "",
